@@ -598,9 +598,64 @@ def run(ctx):
                            '' if not tainted else '`%s` escapes text that contains the source of replacement fields: the backslashes and quotes of string literals inside a field are '
                            'escaped a second time (a newline escape inside a field becomes a backslash followed by n)' % norm(e)[:70], node=x.ast)
         ctx.floor('C04-ESCAPE', nesc, 1, 'escaping operations in the f-string handlers')
+        # ... and it is applied to *every* literal part: under the scenario "a delimiter is given" each definition of the text that reaches the output
+        # list has gone through an escaping operation (a guard on the text itself -- `if not text.isprintable()` -- lets a backslash through unescaped)
+        def is_esc(e):
+            return any(isinstance(c, ast.Call) and isinstance(c.func, ast.Attribute) and c.func.attr == 'encode' and c.args and isinstance(c.args[0], ast.Constant)
+                       and 'escape' in str(c.args[0].value) or isinstance(c, ast.Call) and dotted(c.func) in ('repr', 'ascii') for c in ast.walk(e))
+        nlit = 0
+        for h in {id(b_): b_ for b_ in bodies_}.values():
+            if not any(is_esc(x_) for x_ in ast.walk(h.node)): continue
+            gh = ctx.cg.cfg(h)
+            qparams = [p_ for p_ in h.params if p_ not in (h.recv,)]
+            def given(text, node):
+                for qp in qparams[1:]:
+                    if text == qp + ' is None': return False
+                    if text == qp: return True
+                return None
+            eo_q = scenario_edges(gh, h.node, given, resolve=False)
+            live_q = gh.reach([gh.entry], edge_ok=eo_q)
+            for x in gh.nodes:
+                if x.ast is None or x.kind != 'stmt' or x.id not in live_q: continue
+                for c in x.calls():
+                    if not (isinstance(c.func, ast.Attribute) and c.func.attr in ('append', 'extend') and c.args and isinstance(c.args[0], ast.Name)): continue
+                    var = c.args[0].id
+                    seen = set(); bad = []
+                    def escaped(at, name, depth=0):
+                        ds = reaching_defs(gh, at, name, edge_ok=eo_q)
+                        if not ds: return False
+                        for d in ds:
+                            if (d.id, name) in seen: continue
+                            seen.add((d.id, name))
+                            v = value_of_def(d, name)
+                            if v is None: return False
+                            if any(isinstance(a, ast.Attribute) and a.attr == 'src' for a in ast.walk(v)): continue      # field source, not literal text
+                            if is_esc(v): continue
+                            subj = v                                        # the text a chain of string methods is applied to
+                            while True:
+                                if isinstance(subj, ast.Call) and isinstance(subj.func, ast.Attribute): subj = subj.func.value
+                                elif isinstance(subj, (ast.Attribute, ast.Subscript)): subj = subj.value
+                                else: break
+                            if isinstance(subj, ast.Name) and depth < 4 and escaped(d, subj.id, depth + 1): continue
+                            bad.append(d); return False
+                        return True
+                    # only text variables that hold literal parts: some definition derives from a Constant's value
+                    lit = any(any(isinstance(a, ast.Attribute) and a.attr == 'value' for a in ast.walk(value_of_def(d, var) or ast.Pass())) for d in gh.nodes
+                              if d.ast is not None and d.kind == 'stmt' and value_of_def(d, var) is not None)
+                    if not lit: continue
+                    nlit += 1
+                    ok = escaped(x, var)
+                    ctx.ob('C04-ESCAPE.every-literal-part-is-escaped-when-a-delimiter-is-given', h, c, ok,
+                           '' if ok else 'with a delimiter given, `%s` can reach the output through `%s` without an escaping operation: a backslash in the literal text of an f-string is '
+                           'written out as it is and read back as an escape sequence' % (var, norm(bad[0].ast)[:70] if bad else '?'), node=x.ast)
+        ctx.floor('C04-ESCAPE', nlit, 1, 'literal parts appended to the output of the f-string handlers')
 
 
 MUTANTS = [
+    dict(id='C04-esc3', file='pony/orm/asttranslation.py', fn='PythonTranslator.fstring_body', old="                    text = text.encode('unicode_escape').decode('ascii').replace(quote[0], '\\\\' + quote[0])",
+         new="                    if not text.isascii(): text = text.encode('unicode_escape').decode('ascii')\n                    text = text.replace(quote[0], '\\\\' + quote[0])", expect='C04-ESCAPE.every-literal-part'),
+    dict(id='C04-esc4', file='pony/orm/asttranslation.py', fn='PythonTranslator.fstring_body', old="                    text = text.encode('unicode_escape').decode('ascii').replace(quote[0], '\\\\' + quote[0])",
+         new="                    escaped = text.encode('unicode_escape').decode('ascii')\n                    text = escaped.replace(quote[0], '\\\\' + quote[0])", benign=True),
     dict(id='C04-esc2', file='pony/orm/asttranslation.py', fn='PythonTranslator.postJoinedStr', old="                return 'f' + quote + self.fstring_body(node, quote) + quote", new="                return 'f%r' % self.fstring_body(node)", expect='C04-ESCAPE.field-source'),
     dict(id='C04-kw', file='pony/orm/asttranslation.py', fn='PythonTranslator.postCall', old="        if len(node.args) == 1 and not node.keywords and isinstance(node.args[0], ast.GeneratorExp):", new="        if len(node.args) == 1 and isinstance(node.args[0], ast.GeneratorExp):", expect='C04-FIELDS.return-path'),
     dict(id='C04-arity-const', file='pony/orm/asttranslation.py', fn='PythonTranslator.postSubscript', old="            key = repr(x.value)[1:-1]", new="            key = ', '.join([repr(item) for item in x.value])", expect='C04-ARITY'),
